@@ -130,7 +130,7 @@ V2_SUBRESOURCES = ["acl", "delete", "lifecycle", "location", "logging", "notific
                    "uploads", "versionId", "versioning", "versions", "website"]
 
 
-def v2_string_to_sign(method, raw_path, pairs, headers, date_or_expires, vh_bucket=None):
+def v2_string_to_sign(method, raw_path, pairs, headers, date_or_expires, vh_bucket=None, presigned=False):
     def h(name):
         for k, v in headers:
             if k.lower() == name:
@@ -142,6 +142,8 @@ def v2_string_to_sign(method, raw_path, pairs, headers, date_or_expires, vh_buck
         if lk.startswith("x-amz-"):
             amz.setdefault(lk, []).append(v.strip())
     canon_amz = "".join("%s:%s\n" % (k, ",".join(amz[k])) for k in sorted(amz))
+    if "x-amz-date" in amz and not presigned:
+        date_or_expires = ""      # header authentication dated by x-amz-date: the Date line is empty
     res = ("/" + vh_bucket if vh_bucket else "") + raw_path
     sub = sorted((k, v) for k, v in pairs if k in V2_SUBRESOURCES)
     if sub:
